@@ -227,12 +227,140 @@ type lenAnalyzer struct {
 	info *types.Info
 	// summaries of boolean helper methods: method -> interval implied on the receiver when true / when false
 	sum map[*types.Func][2]*lenIv
+	// explaining locals: single-definition locals of the body under analysis (`n := len(S)`, `two := n == 2`)
+	defs  map[types.Object]ast.Expr
+	kills []killSite
+	body  *ast.BlockStmt
+	// facts every caller establishes for the parameters (unexported functions only)
+	entry lenState
+}
+
+type killSite struct {
+	k   sliceKey
+	pos token.Pos
+}
+
+// collectLocals finds the locals of body that are defined exactly once, and every place a slice key is overwritten.
+func (la *lenAnalyzer) collectLocals(body *ast.BlockStmt) {
+	la.body = body
+	la.defs = map[types.Object]ast.Expr{}
+	la.kills = nil
+	count := map[types.Object]int{}
+	note := func(l ast.Expr, rhs ast.Expr) {
+		if l == nil {
+			return
+		}
+		if id, ok := ast.Unparen(l).(*ast.Ident); ok {
+			if o := la.info.ObjectOf(id); o != nil {
+				count[o]++
+				la.defs[o] = rhs
+			}
+		}
+		if k, ok := keyOf(la.info, l); ok {
+			k.path = normPath(k.path)
+			la.kills = append(la.kills, killSite{k, l.Pos()})
+		}
+	}
+	ast.Inspect(body, func(n ast.Node) bool {
+		switch s := n.(type) {
+		case *ast.AssignStmt:
+			for i, l := range s.Lhs {
+				if len(s.Lhs) == len(s.Rhs) {
+					note(l, s.Rhs[i])
+				} else {
+					note(l, nil)
+				}
+			}
+		case *ast.IncDecStmt:
+			note(s.X, nil)
+		case *ast.RangeStmt:
+			note(s.Key, nil)
+			note(s.Value, nil)
+		case *ast.UnaryExpr:
+			if s.Op == token.AND {
+				note(s.X, nil)
+			}
+		}
+		return true
+	})
+	for o, n := range count {
+		if n != 1 || la.defs[o] == nil {
+			delete(la.defs, o)
+		}
+	}
+}
+
+// localDef: the defining expression of an explaining local, when using it at `use` still speaks about the present:
+// nothing the expression reads about slice lengths is overwritten between the definition and the use.
+func (la *lenAnalyzer) localDef(e ast.Expr, use token.Pos) ast.Expr {
+	id, ok := ast.Unparen(e).(*ast.Ident)
+	if !ok || la.defs == nil {
+		return nil
+	}
+	o := la.info.ObjectOf(id)
+	rhs, ok := la.defs[o]
+	if !ok || rhs == nil || rhs.Pos() > use {
+		return nil
+	}
+	// loops around the use that do not contain the definition
+	useInOuterLoop := false
+	ast.Inspect(la.body, func(n ast.Node) bool {
+		switch n.(type) {
+		case *ast.ForStmt, *ast.RangeStmt:
+			if n.Pos() <= use && use < n.End() && !(n.Pos() <= rhs.Pos() && rhs.Pos() < n.End()) {
+				useInOuterLoop = true
+			}
+		}
+		return true
+	})
+	stale := false
+	ast.Inspect(rhs, func(n ast.Node) bool {
+		x, ok := n.(ast.Expr)
+		if !ok {
+			return true
+		}
+		if k, ok := keyOf(la.info, x); ok {
+			k.path = normPath(k.path)
+			for _, ks := range la.kills {
+				if ks.k.root != k.root || ks.pos <= rhs.End() {
+					continue
+				}
+				if !(strings.HasPrefix(k.path, ks.k.path) || strings.HasPrefix(ks.k.path, k.path)) {
+					continue
+				}
+				if ks.pos < use || useInOuterLoop {
+					stale = true
+				}
+			}
+		}
+		return true
+	})
+	if stale {
+		return nil
+	}
+	return rhs
+}
+
+func (la *lenAnalyzer) lenArgOf(e ast.Expr, use token.Pos) (ast.Expr, bool) {
+	if a, ok := lenArg(la.info, e); ok {
+		return a, true
+	}
+	if rhs := la.localDef(e, use); rhs != nil {
+		return lenArg(la.info, rhs)
+	}
+	return nil, false
 }
 
 // condFacts: facts implied when cond evaluates to truth.
 func (la *lenAnalyzer) condFacts(cond ast.Expr, truth bool) lenState {
 	out := lenState{}
 	switch x := ast.Unparen(cond).(type) {
+	case *ast.Ident:
+		if rhs := la.localDef(x, x.Pos()); rhs != nil {
+			if _, again := ast.Unparen(rhs).(*ast.Ident); !again {
+				return la.condFacts(rhs, truth)
+			}
+		}
 	case *ast.UnaryExpr:
 		if x.Op == token.NOT {
 			return la.condFacts(x.X, !truth)
@@ -265,11 +393,11 @@ func (la *lenAnalyzer) condFacts(cond ast.Expr, truth bool) lenState {
 			op := x.Op
 			var s ast.Expr
 			var n int
-			if a, ok := lenArg(la.info, x.X); ok {
+			if a, ok := la.lenArgOf(x.X, x.Pos()); ok {
 				if c, ok := constInt(la.info, x.Y); ok {
 					s, n = a, c
 				}
-			} else if a, ok := lenArg(la.info, x.Y); ok {
+			} else if a, ok := la.lenArgOf(x.Y, x.Pos()); ok {
 				if c, ok := constInt(la.info, x.X); ok {
 					s, n, op = a, c, flipOp(op)
 				}
@@ -350,6 +478,7 @@ func (la *lenAnalyzer) summary(f *types.Func) *[2]*lenIv {
 // interval known for key k just before node n.
 func (la *lenAnalyzer) analyze(body *ast.BlockStmt) func(n ast.Node, k sliceKey) lenIv {
 	fc := core.NewCFG(body, la.info)
+	la.collectLocals(body)
 	blocks := fc.G.Blocks
 	in := make([]lenState, len(blocks))
 	visited := make([]bool, len(blocks))
@@ -411,6 +540,9 @@ func (la *lenAnalyzer) analyze(body *ast.BlockStmt) func(n ast.Node, k sliceKey)
 	}
 	work := []*cfg.Block{blocks[0]}
 	in[0] = lenState{}
+	if la.entry != nil {
+		in[0] = la.entry.clone()
+	}
 	visited[0] = true
 	for iter := 0; len(work) > 0 && iter < 20000; iter++ {
 		b := work[0]
